@@ -250,7 +250,8 @@ def c18(acc):
     acc.trusted = READER_TRUST
     mc_source(acc, 2 if q else 3, faults=True, name="MC_Source-fault")
     _, p = mc_reader(acc, 2, "default" if q else "cover", ["Inv_RefMatch"], name="MC_Reader-c18")
-    replay_reader(acc, p, "faults")
+    # (quick: two of the seven error kinds per fault point, rotating; thorough: all of them)
+    replay_reader(acc, p, "faults", extra=[] if q else ["--all-kinds", 1])
     # construct-focused spaces: a fault while a scanner carry (quote state, '?' flag, DOCTYPE balance, split terminator) is live
     for mode, k in (("doctype", 2 if q else 3), ("comment2", 3 if q else 5), ("cdata", 2 if q else 4), ("pi", 2 if q else 4), ("tag", 2 if q else 3)):
         mc_source(acc, k, faults=True, frag=mode, name="MC_Source-fault-" + mode)
@@ -421,6 +422,9 @@ def c12(acc):
     _, pk = mc_ops(acc, 3, 0, 2, "trim", [], invs, "MC_Ops-c12any", skipany=True)
     replay_reader(acc, pk, "slice", extra=["--stride", 2 if q else 1])
     replay_reader(acc, pk, "chunks", extra=["--max-all-cuts", 0, "--stride", 7 if q else 2])
+    # the curated documents alone (terminator look-alikes inside CDATA / comments of the skipped element) under every one- and two-cut delivery
+    _, psd = mc_ops(acc, 0, 0, 2, "trim", [], invs, "MC_Ops-c12seeds", skipany=True)
+    replay_reader(acc, psd, "chunks", extra=["--max-all-cuts", 0, "--pair-cuts", 60])
     # a skip call spans many refills of a buffered source: interrupts at any of them are invisible, a hard error is reported by the call
     replay_reader(acc, p, "faults", extra=["--stride", 7 if q else 2])
     trace_reader(acc, 400 if q else 4000, "doc,mut,corpus", "skips", sources="all", max_len=400 if q else 3000)
@@ -482,7 +486,7 @@ def c10(acc):
                 "upper hex and zero-padded spellings (run-length encoded; TLC evaluates ValidScalar on every code point) plus boundary spellings with output bytes. "
                 "non-trivial = strings containing '&' (and every swept code point)")
     acc.trusted = ["TLC", "harness/src/esc.rs", "feature escape-html off (five predefined entities)"]
-    for mode, n in (("general", 4 if q else 6), ("ref", 5 if q else 7)):
+    for mode, n in (("general", 4 if q else 5), ("ref", 5 if q else 6)):      # (20 / 10 symbols: 3.4 M / 1.1 M strings in the thorough tier)
         cfg = f"""SPECIFICATION Spec
 CONSTANTS
   N = {n}
@@ -673,7 +677,7 @@ def c17(acc):
     return acc.finish()
 
 
-RT_TYPES = ["F01", "F02", "F03", "F04", "F05", "F07", "F08", "F11", "F15", "F16", "F17", "F18", "F19", "F20", "F22", "F23", "F24", "F25", "F26", "F27", "F28", "F29", "F30", "F31", "F32", "F33", "F34"]
+RT_TYPES = ["F01", "F02", "F03", "F04", "F05", "F07", "F08", "F11", "F15", "F16", "F17", "F18", "F19", "F20", "F22", "F23", "F24", "F25", "F26", "F27", "F28", "F29", "F30", "F31", "F32", "F33", "F34", "F35"]
 
 
 def mc_serde(acc, types, mode, name, timeout=2500):
@@ -804,7 +808,7 @@ CONSTANTS
   Emit = {"TRUE" if emit else "FALSE"}
   SkipDoctype = {"TRUE" if skip_doctype else "FALSE"}
   Types = {{{', '.join('"%s"' % t for t in types)}}}
-INVARIANTS Inv_NoTwoTexts Inv_DeBounded Inv_Rewrite Inv_BaseReadsBack Inv_Inter{' Inv_Emit' if emit else ''}
+INVARIANTS Inv_NoTwoTexts Inv_DeBounded Inv_RootSeqEnds Inv_RootSeqWitness Inv_Rewrite Inv_BaseReadsBack Inv_Inter Inv_ResolverRun{' Inv_Emit' if emit else ''}
 CHECK_DEADLOCK FALSE
 """
     r = tlc("MC_De", cfg, name=name, timeout=timeout, xss="512m")
@@ -847,6 +851,10 @@ def c07(acc):
     # content inside an element carrying a bound xsi:nil="true" (treated as absent by the Option logic)
     _, pn = mc_de(acc, "nil", 4 if q else 5, ["F02"], "MC_De-nil")
     de_replay(acc, pn, "soup", "B:content under xsi:nil x all target types", extra=sch)
+    # the event-buffer limit (Deserializer::event_buffer_size) on documents whose list items are interleaved, also on two levels:
+    # whatever the limit, a value or an error - never a panic (the error path of one access and the Drop of another cooperate)
+    _, pil = mc_de(acc, "interleave", 1, ["F22", "F23", "F26", "F29", "F33", "F34", "F35"], "MC_De-inter-c07")
+    de_replay(acc, pil, "interleave", "B:interleaved list documents x every event-buffer limit: no panic")
     _, p2 = mc_de(acc, "rewrite", 1, ["F05", "F15", "F22"] if q else RT_TYPES, "MC_De-bases", timeout=3000)
     summ, viol, _ = harness(["de-mutate", "--file", p2, "--prop", acc.pid, "--out-dir", REPLAY_DIR, "--seed", SEED, "--per-doc", 3 if q else 20])
     acc.add_harness(summ, viol, "C:token-level mutations and every-byte truncations of serialized values")
@@ -868,6 +876,9 @@ def c15(acc):
     de_replay(acc, p, "rewrite", "B:rewritten documents deserialize to the original value", extra=["--sizes", ""])
     # the deserializer's other build variant (feature overlapped-lists off) skips unknown subtrees with different code
     de_replay(acc, p, "rewrite", "B:the same with a quick-xml built without overlapped-lists", extra=["--sizes", ""], flavour="nool")
+    # text runs under a CUSTOM entity resolver (from_str_with_resolver / with_resolver): references in the first and in later pieces of a run
+    _, ptr = mc_de(acc, "textrunR", 4 if q else 5, ["F02"], "MC_De-textrunR")
+    de_replay(acc, ptr, "soup", "B:text runs under a custom entity resolver: String target = the specification's text", extra=["--sizes", "2"])
     # the same rewrites over GENERATED types (SchemaGen: every struct of <= 1 [2] fields on the round-trippable domain x 4 values)
     _, psr = mc_de(acc, "rewriteS", 2 if q else 3, ["-"], "MC_De-rewriteS", timeout=3400)
     de_replay(acc, psr, "rewrite", "B:rewritten documents of generated types deserialize to the generated value", extra=["--sizes", "3"])
@@ -884,7 +895,7 @@ def c20(acc):
                 "document deserialized without limit (must equal the value) and with event_buffer_size = 1..total+1: the value or TooManyEvents, TooManyEvents "
                 "whenever Held > limit, monotone in the limit. non-trivial = interleavings that need buffering")
     acc.trusted = SERDE_TRUST
-    _, p = mc_de(acc, "interleave", 1, ["F22", "F23", "F26", "F29", "F33", "F34"], "MC_De-inter")
+    _, p = mc_de(acc, "interleave", 1, ["F22", "F23", "F26", "F29", "F33", "F34", "F35"], "MC_De-inter")
     de_replay(acc, p, "interleave", "B:interleavings x buffer limits")
     return acc.finish()
 
